@@ -633,10 +633,32 @@ var bufferPool = &sync.Pool{ //nolint:gochecknoglobals
 }
 
 func (c *Client) handleAgentCallback(event Event) { //nolint:cyclop
+	var now time.Time
+	if event.Error != nil {
+		now = c.clock.Now()
+	}
 	c.mux.Lock()
 	closed := c.closed
 	transaction, found := c.t[event.TransactionID]
-	if found {
+	// A transaction that is going to be retransmitted stays registered, so
+	// that a response which arrives in the meantime still finds it.
+	retransmit := found && !closed && event.Error != nil &&
+		atomic.LoadInt32(&c.maxAttempts) > transaction.attempt
+	var (
+		buff    *buffer
+		timeOut time.Time
+		id      transactionID
+	)
+	if retransmit {
+		// As soon as the lock is released a response may complete the
+		// transaction and recycle the object, so everything that is needed
+		// afterwards is taken from it now.
+		transaction.attempt++
+		buff = bufferPool.Get().(*buffer) //nolint:forcetypeassert
+		buff.buf = append(buff.buf[:0], transaction.raw...)
+		timeOut = transaction.nextTimeout(now)
+		id = transaction.id
+	} else if found {
 		delete(c.t, transaction.id)
 	}
 	c.mux.Unlock()
@@ -661,7 +683,7 @@ func (c *Client) handleAgentCallback(event Event) { //nolint:cyclop
 		// Ignoring.
 		return
 	}
-	if atomic.LoadInt32(&c.maxAttempts) <= transaction.attempt || event.Error == nil {
+	if !retransmit {
 		// Transaction completed.
 		transaction.handle(event)
 		putClientTransaction(transaction)
@@ -669,24 +691,7 @@ func (c *Client) handleAgentCallback(event Event) { //nolint:cyclop
 		return
 	}
 	// Doing re-transmission.
-	transaction.attempt++
-	buff := bufferPool.Get().(*buffer) //nolint:forcetypeassert
-	buff.buf = append(buff.buf[:0], transaction.raw...)
 	defer bufferPool.Put(buff)
-	var (
-		now     = c.clock.Now()
-		timeOut = transaction.nextTimeout(now)
-		id      = transaction.id
-	)
-	// Starting client transaction.
-	if startErr := c.start(transaction); startErr != nil {
-		c.delete(id)
-		event.Error = startErr
-		transaction.handle(event)
-		putClientTransaction(transaction)
-
-		return
-	}
 	// Starting agent transaction.
 	if startErr := c.a.Start(id, timeOut); startErr != nil {
 		if !c.delete(id) {
